@@ -4,6 +4,7 @@
     longer checks. *)
 From Coq Require Import List NArith Bool String.
 From Verif Require Import Sni.SchedSkel Sni.Shutdown Sni.ShutdownEndpoint Gen.TransportSkel.
+From Verif Require Import Sni.DialSkel Gen.DialSkel.
 Import ListNotations.
 Local Open Scope string_scope.
 
@@ -31,3 +32,15 @@ Definition gen_ecfg : ecfg :=
          (nth 0 (points_of "Endpoint.Close" gen_transport_blocking) [])
          (nth 0 (points_of "Endpoint.sendAccept" gen_transport_blocking) [])
          10.
+
+(** Which exits of endpointServer.handleDial close the connection it
+    created, read off the statements the translator extracted from the
+    source now (Sni/DialSkel.v).  A body that is not understood yields the
+    worst shape: it closes nowhere it should and where it should not. *)
+Definition worst_shape : dshape := mkDShape false false true false.
+
+Definition gen_dshape : dshape :=
+  match dshape_of gen_handleDial with Some sh => sh | None => worst_shape end.
+
+Definition gen_sshape : sshape :=
+  match sshape_of gen_handleDialSide2 with Some sh => sh | None => mkSShape false true false end.
